@@ -314,7 +314,7 @@ pub fn scenarios(tier: Tier) -> Vec<Scenario> {
             for second in seconds {
                 let r = Race { first: *f, sender: s, second };
                 let name = format!("{:?}", r);
-                let bound = if tier.is_quick() { 2 } else { 3 };
+                let bound = 3;
                 v.push(Scenario::new(name, sched_cfg(), bound, move || race_body(&r)));
             }
         }
